@@ -150,9 +150,17 @@ def isMapValue : V → Bool
 /-- what the hint `Iterable` accepts: `is_iterable`, and (when the generated flag says so) every map -/
 def iterableHint (v : V) : Bool := iterable v || (iterableHintAcceptsMaps && isMapValue v)
 
+def isGeneratorFn : V → Bool
+  | .genFn _ => true
+  | _ => false
+
+/-- what the hint `Callable` accepts: `is_callable`, and (when the generated flag says so) generator
+functions -/
+def callableHint (v : V) : Bool := callable v || (callableHintAcceptsGenerators && isGeneratorFn v)
+
 def holds : Special → V → Bool
   | .always, _ => true
-  | .callable, v => callable v
+  | .callable, v => callableHint v
   | .indexable, v => indexable v
   | .iterable, v => iterableHint v
 
